@@ -256,6 +256,88 @@ func runC14(c *Ctx) {
 	c14R4(c)
 	c14R6(c)
 	c14R3(c)
+	c14R5(c)
+}
+
+// c14R5: everything an orchestrator method does to the services between NewTransaction and
+// Commit happens inside that transaction.
+func c14R5(c *Ctx) {
+	r := c.R.Rule("R5", "K6 transaction context: in every orchestrator method that opens a DB transaction, each service call made after it (also from the rollback closures) receives the context NewTransaction returned, never the caller's context", 20)
+	newTx := c.W.ExtMethod("github.com/conduitio/conduit-commons/database", "DB", "NewTransaction")
+	p := c.W.Pkg(pOrch)
+	if newTx == nil || p == nil {
+		c.R.Unresolved(r, "database.DB.NewTransaction / "+pOrch)
+		return
+	}
+	sp := c.W.SSA[p.Types]
+	n := 0
+	for _, fn := range c.W.AllFuncs(sp) {
+		if fn.Parent() != nil {
+			continue
+		}
+		txs := kit.CallsTo(fn, c.Fam(newTx))
+		if len(txs) == 0 {
+			continue
+		}
+		tx := txs[0]
+		txCtx := kit.ResultN(tx, 1)
+		if txCtx == nil {
+			c.R.Fail(r, kit.FuncKey(fn)+": transaction context", c.Pos(tx.Pos()), "the context returned by NewTransaction is discarded")
+			continue
+		}
+		isTxCtx := func(v ssa.Value) bool {
+			if v == txCtx {
+				return true
+			}
+			u, ok := v.(*ssa.UnOp)
+			if !ok || u.Op != token.MUL {
+				return false
+			}
+			cell := u.X
+			if fv, ok := cell.(*ssa.FreeVar); ok {
+				cell = kit.ResolveFreeVar(fv)
+			}
+			if cell == nil {
+				return false
+			}
+			for _, cu := range kit.CellUses(cell) {
+				if st, ok := cu.Instr.(*ssa.Store); ok && st.Val == txCtx {
+					// in the method body itself the store must come first
+					if u.Parent() == fn && !kit.InstrDominates(st, u) {
+						continue
+					}
+					return true
+				}
+			}
+			return false
+		}
+		for _, f := range kit.WithAnon(fn) {
+			for _, b := range f.Blocks {
+				for _, in := range b.Instrs {
+					ci, ok := in.(ssa.CallInstruction)
+					if !ok {
+						continue
+					}
+					svc, method, isSvc := svcCall2(ci)
+					if !isSvc {
+						continue
+					}
+					if f == fn && !kit.InstrDominates(tx, ci) {
+						continue // before the transaction was opened
+					}
+					a := ci.Common().Args
+					if len(a) == 0 || !strings.HasSuffix(a[0].Type().String(), "context.Context") {
+						continue
+					}
+					n++
+					c.R.Check(isTxCtx(a[0]), r, kit.FuncKey(fn)+": "+svc+"."+method+" runs in the transaction", c.Pos(ci.Pos()), "ctx from NewTransaction", svc+"."+method+" is called with a context other than the one NewTransaction returned: its store write happens outside the transaction, so a later failure rolls memory back but leaves the row in the store (an orphan after restart)", true)
+				}
+			}
+		}
+	}
+	if n == 0 {
+		c.R.Fail(r, "orchestrator service calls inside a transaction", "", "none found")
+	}
 }
 
 // c14R3: a service method that changed the live instance before persisting it
